@@ -734,7 +734,8 @@ class J1939_22:
             return
 
         self._rcv_buffer[buffer_hash]['deadline'] = time.time() + self.Timeout.T1
-        #self.__job_thread_wakeup()
+        # (the job thread may be sleeping towards the later T2 deadline set with the CTS)
+        self.__job_thread_wakeup()
 
     def _process_multi_pg(self, mid : MessageId, dest_address, data, timestamp):
         # currently "SAE J1939 with no assurance data" trailer format supported only
